@@ -22,11 +22,14 @@ class FeatureIDEReader(TextToModel):
     TAG_FEATURE = "feature"
     TAG_CONSTRAINTS = "constraints"
     TAG_GRAPHICS = "graphics"
+    TAG_DESCRIPTION = "description"
+    NON_RULE_TAGS = (TAG_GRAPHICS, TAG_DESCRIPTION)
 
     # Feature tags
     TAG_AND = "and"
     TAG_OR = "or"
     TAG_ALT = "alt"
+    FEATURE_TAGS = (TAG_FEATURE, TAG_AND, TAG_OR, TAG_ALT)
 
     # Constraints tags
     TAG_RULE = "rule"
@@ -79,7 +82,7 @@ class FeatureIDEReader(TextToModel):
         feature = None
 
         for child in root_tree:
-            if not child.tag == FeatureIDEReader.TAG_GRAPHICS:
+            if child.tag in FeatureIDEReader.FEATURE_TAGS:
                 is_abstract = (
                     FeatureIDEReader.ATTRIB_ABSTRACT in child.attrib
                     and child.attrib[FeatureIDEReader.ATTRIB_ABSTRACT] == "true"
@@ -136,7 +139,7 @@ class FeatureIDEReader(TextToModel):
         constraints = []
         for ctc in ctcs_root:
             index = 0
-            if ctc[index].tag == FeatureIDEReader.TAG_GRAPHICS:
+            while ctc[index].tag in FeatureIDEReader.NON_RULE_TAGS:
                 index += 1
             rule = ctc[index]
             ast = self._parse_rule(rule)
